@@ -44,6 +44,8 @@ func realMain() (code int) {
 	replay := fs.String("replay", "", "replay file")
 	control := fs.String("control", "", "internal: run one positive control")
 	listControls := fs.Bool("list-controls", false, "list positive controls of the property")
+	corpus := fs.String("corpus", "", "internal: apply the patch in this directory in memory and run the property")
+	noCorpus := fs.Bool("no-corpus", false, "thorough tier without the regression corpus")
 	goarch := fs.String("goarch", "", "GOARCH for loading")
 	var prop string
 	args := os.Args[1:]
@@ -95,6 +97,9 @@ func realMain() (code int) {
 	if *control != "" {
 		return runControlChild(def, *control, *repo)
 	}
+	if *corpus != "" {
+		return runCorpusChild(def, *corpus, *repo)
+	}
 
 	r := newResult(prop, *tier)
 	var p *Program
@@ -115,6 +120,9 @@ func realMain() (code int) {
 	}
 	if loadErr == nil && *tier == "thorough" {
 		thorough(def, p, r, *repo)
+		if !*noCorpus {
+			runCorpus(def, r, *repo, *verif)
+		}
 	}
 	return r.finish(p, *verif, start, seed, loadErr)
 }
